@@ -253,7 +253,8 @@ def gen_prog(rng, nwl, nticks, nonce0=0, names=None):
                 continue  # this worldline does not step in this pass
             used = set()
             # first intent: unique root attachment (the state root changes on every tick) + ops
-            body = nop() + [2, 255, 2, t % 256, rng.randint(0, 255)] + random_ops(w, used, True)
+            salt = rng.randint(0, 254)
+            body = nop() + [2, 255, 2, t % 256, salt] + random_ops(w, used, True)
             intents.append((w, body))
             r = rng.random()
             if r < 0.3:
@@ -262,7 +263,8 @@ def gen_prog(rng, nwl, nticks, nonce0=0, names=None):
                     intents.append((w, nop() + extra))
             elif r < 0.4:
                 # deliberately conflicting second intent (rejected by the scheduler, recorded in the receipt)
-                intents.append((w, nop() + [2, 255, 1, 7]))
+                # (whichever of the two the canonical order admits, the root attachment is unique to this tick)
+                intents.append((w, nop() + [2, 255, 2, t % 256, salt + 1]))
         if not intents:
             intents.append((0, nop() + [2, 255, 2, t % 256, 1]))
         ticks.append(",".join(f"{names[w]}.{bytes(b).hex()}" for w, b in intents))
@@ -325,7 +327,8 @@ def gen_case(rng, idx, kind, tier):
                     for pos in range(n):
                         scen.append(f"S:{w}:{kind}@{pos}")
             else:
-                for _ in range(2 if tier == "quick" else 5):
+                # sweeps over 6-7 ticks cost 6k-16k triples each: one tampered sweep there in the quick tier
+                for _ in range((1 if n >= 6 else 2) if tier == "quick" else (2 if n >= 6 else 5)):
                     scen.append(f"S:{w}:{gen_tamper(rng, n, 1.0)}")
             scen.append(f"F:{w}:{gen_cps(rng, n)}")
             scen.append(f"O:{w}:R:{n}:{gen_cps(rng, n)}:{gen_tamper(rng, n)}:{gen_ops(rng, n, 8)}")
@@ -720,7 +723,7 @@ def run(tier, seed, replay=None):
         cases = [d["replay"]["case"]] if "case" in d.get("replay", {}) else []
     else:
         cases = vf.load_corpus(PROP)
-        ns, nl = (10, 50) if tier == "quick" else (60, 400)
+        ns, nl = (10, 40) if tier == "quick" else (40, 300)
         scale = float(os.environ.get("VERIF_C07_SCALE", "1"))   # builder experiments only
         ns, nl = max(1, int(ns * scale)), max(1, int(nl * scale))
         base = len(cases)
@@ -803,6 +806,19 @@ def run(tier, seed, replay=None):
     r.cov["sweep_triples"] = ntriples
     r.cov["cursor_ops"] = nops
     r.cov["fork_points"] = nforks
+    import re as _re
+    errs, tampers, lens = {}, {}, {}
+    for c, rows in zip(cases, results):
+        for w in _re.findall(r":(\w+)@\d+:", c) + _re.findall(r"S:\d:(\w+)@\d+", c):
+            if w in TCODE:
+                tampers[w] = tampers.get(w, 0) + 1
+        lens[c.split("prog=")[1].split()[0].count("/") + 1] = lens.get(c.split("prog=")[1].split()[0].count("/") + 1, 0) + 1
+        for _s, il, _ml in rows or []:
+            for tok in _re.findall(r"\b([EH][A-Za-z]+)@", il):
+                errs[tok] = errs.get(tok, 0) + 1
+    r.cov["global_ticks_histogram"] = dict(sorted(lens.items()))
+    r.cov["tamper_kinds_injected"] = dict(sorted(tampers.items()))
+    r.cov["error_kinds_observed_and_predicted"] = dict(sorted(errs.items()))
     r.cov["histories"] = len(cases)
     # informational: forged tick-0 checkpoint with an extra unreachable node (same state root); never a failure
     r.cov["adversarial_checkpoint_probe"] = probes
